@@ -229,10 +229,7 @@ async fn stream_to_udp(
 
         drop(reader_guard);
 
-        if payload.is_empty() {
-            tracing::debug!("[UDP Client] Empty packet, stream might be closed");
-            break;
-        }
+        // A zero-length datagram is a datagram like any other: it is forwarded, it does not end the association
 
         tracing::trace!("[UDP Client] Stream → UDP: {} bytes", payload.len());
 
